@@ -441,12 +441,12 @@ def run(chk):
         jobs = [(f, p) for f, p in singles if f in VALUES]
         if quick:
             r = common.rng("c20")
-            # every field once with a rotating provenance, plus 'both' for a handful
-            provs = ["file", "flag", "both"]
+            # every field given by file and given by flag; 'both' (flag wins) for a rotating third of the fields
             sel = []
             for i, f in enumerate(sorted({f for f, _ in jobs})):
-                sel.append((f, provs[(i + chk.seed) % 3]))
-            sel += [(f, "both") for f in ("upem", "family", "keep_glyph_names", "bitmap_resolution") if (f, "both") not in sel]
+                sel += [(f, "file"), (f, "flag")]
+                if (i + chk.seed) % 3 == 0 or f in ("upem", "family", "keep_glyph_names", "bitmap_resolution"):
+                    sel.append((f, "both"))
             jobs = sel
 
         def one(k_job):
